@@ -334,3 +334,15 @@ Proof.
     + split; [|reflexivity]. intros _. exists d. split; auto. apply bytes_eqb_false. exact E.
   - split; [discriminate|]. intros (d & ? & _). discriminate.
 Qed.
+
+(* every later start: a database that any start accepted is accepted again under the same configuration (and stays what it
+   is), and refused under every configuration with another genesis hash *)
+Theorem init_db_restart db h s :
+  init_db db h = Some s ->
+  init_db (Some s) h = Some s /\ (forall h', h' <> h -> init_db (Some s) h' = None).
+Proof.
+  intros H. apply init_db_spec in H. assert (s = h) as -> by (destruct H as [[_ ?]|[_ ?]]; assumption).
+  split.
+  - apply init_db_spec. right. split; reflexivity.
+  - intros h' Hn. apply init_db_refuses. exists h. split; [reflexivity|]. intros E. apply Hn. symmetry. exact E.
+Qed.
